@@ -12,13 +12,14 @@
 EXTENDS RegAllocInterp
 
 CONSTANTS PSet,          \* set of pressures to draw from
+          QSet,          \* set of vector-register pressures (0 = no vector registers)
           Skeletons,     \* subset of {"straight","diamond","loop2","irreducible","jtab","jtabloop","callloop"}
           Hazards,       \* subset of {"plain","fixed","calls","mem"}: which instruction mix the blocks use
           BlockLen,      \* instructions per random block
           Randomized
 
-VARIABLES phase, P, sk, hz, plan, prog, ms
-vars == <<phase, P, sk, hz, plan, prog, ms>>
+VARIABLES phase, P, Q, sk, hz, plan, prog, ms
+vars == <<phase, P, Q, sk, hz, plan, prog, ms>>
 
 Inputs == << <<0, 0>>, <<1, 2>>, <<65535, 1>>, <<3, 65535>>, <<12345, 54321>>, <<256, 255>>, <<7, 7>>, <<40000, 2>> >>
 
@@ -34,6 +35,7 @@ PlainOps == <<"movi", "mov", "add", "sub", "imul", "and", "or", "xor", "addi", "
 FixedOps == <<"shl", "shr", "sar", "div", "idiv", "mul", "cmpxchg", "shl", "div", "mul", "xchg", "add", "mov", "setcc">>
 ExhOps == <<"shl", "div", "mul", "cmpxchg", "xchg", "call1", "sstx", "setcc", "mov">>      \* alphabet of the exhaustive mode
 CallOps  == <<"call1", "call2", "call1", "call2", "add", "mov", "sub", "shl", "div", "xor">>
+VecOps   == <<"vset", "vget", "vmov", "vxor", "vor", "vand", "vset", "vget", "vmov", "vxor">>
 MemOps   == <<"st", "ld", "sst", "sld", "sstx", "sldx", "add", "mov", "xor", "sst", "sld", "imul">>
 OpsFor(h) == CASE h = "plain" -> PlainOps [] h = "fixed" -> PlainOps \o FixedOps \o FixedOps
                [] h = "calls" -> PlainOps \o CallOps \o FixedOps [] h = "mem" -> PlainOps \o MemOps \o MemOps \o FixedOps
@@ -41,8 +43,12 @@ OpsFor(h) == CASE h = "plain" -> PlainOps [] h = "fixed" -> PlainOps \o FixedOps
                [] OTHER -> PlainOps \o FixedOps \o CallOps \o MemOps
 
 (* the instruction(s) for a choice; operands a,b,c are distinct registers of 1..p (0 = not available) *)
-Mk(op, p, a, b, c, k, imm, cc, args) ==
+Mk(op, p, a, b, c, k, imm, cc, args, xa, xb) ==
   CASE op = "movi" -> << <<"movi", a, imm>> >>
+    [] op \in {"vset", "vget", "vmov", "vxor", "vor", "vand"} /\ xa = 0 -> << <<"addi", a, imm>> >>
+    [] op = "vset" -> << <<"vset", xa, a>> >>
+    [] op = "vget" -> << <<"vget", a, xa>> >>
+    [] op \in {"vmov", "vxor", "vor", "vand"} -> << <<op, xa, IF xb = 0 THEN xa ELSE xb>> >>
     [] op \in {"neg", "not", "xorself"} -> << <<op, a>> >>
     [] op = "addi" -> << <<"addi", a, imm>> >>
     [] b = 0 -> << <<"addi", a, imm>> >>                                       \* only one register exists
@@ -67,12 +73,17 @@ Mk(op, p, a, b, c, k, imm, cc, args) ==
 (*   <<"I", instr>> literal   <<"B", n>> n random instructions   <<"J", L>> random conditional jump to L         *)
 (*   <<"T", <<L1..L4>>>> jump table on a random register                                                          *)
 I(x) == <<"I", x>>
+XChunks(q, nm, acc) == [c \in 1..((q + 15) \div 16) |->
+                         I(IF acc = 0 THEN <<nm, 1 + 16 * (c - 1), IF 16 * c < q THEN 16 * c ELSE q>>
+                                      ELSE <<nm, acc, 1 + 16 * (c - 1), IF 16 * c < q THEN 16 * c ELSE q>>)]
 Prologue(p) == (IF p >= 3 THEN << I(<<"initall", 3, p>>) >> ELSE << >>)
+               \o (IF Q > 0 THEN XChunks(Q, "vinitall", 0) ELSE << >>)
                \o [k \in 1..NS |-> I(<<"sst", k - 1, ((k - 1) % p) + 1>>)]
 (* the final fold is emitted in chunks of 16 registers (bounded recursion depth of FoldVal in TLC) *)
 FoldChunks(p) == [c \in 1..((p - 1 + 15) \div 16) |->
                     I(<<"fold", p + 3, 2 + 16 * (c - 1), IF 1 + 16 * c < p THEN 1 + 16 * c ELSE p>>)]
 Epilogue(p) == << I(<<"mov", p + 3, 1>>) >> \o (IF p >= 2 THEN FoldChunks(p) ELSE << >>)
+               \o (IF Q > 0 THEN XChunks(Q, "vfold", p + 3) ELSE << >>)
                \o << I(<<"st", 0, p + 3>>), I(<<"ret", p + 3>>) >>
 Body(s, p, n) ==
   CASE s = "straight" -> << <<"B", 3 * n>> >>
@@ -94,7 +105,7 @@ Body(s, p, n) ==
 PlanFor(s, p, n) == Prologue(p) \o Body(s, p, n) \o Epilogue(p)
 
 Init == /\ phase = "gen"
-        /\ P \in PSet /\ sk \in Skeletons /\ hz \in Hazards
+        /\ P \in PSet /\ Q \in QSet /\ sk \in Skeletons /\ hz \in Hazards
         /\ plan = PlanFor(sk, P, BlockLen)
         /\ prog = <<>>
         /\ ms = <<>>
@@ -105,12 +116,12 @@ GenBlockEnd == /\ plan # <<>> /\ Head(plan)[1] = "B" /\ Head(plan)[2] = 0
                /\ plan' = Tail(plan) /\ UNCHANGED prog
 GenBlock ==
   /\ plan # <<>> /\ Head(plan)[1] = "B" /\ Head(plan)[2] > 0
-  /\ LET ops == OpsFor(hz) IN
+  /\ LET ops == OpsFor(hz) \o (IF Q > 0 THEN VecOps \o VecOps ELSE <<>>) IN
      \E oi \in Ch(1..Len(ops)) : \E a \in Ch(1..P) : \E b \in Ch((1..P) \ {a}) : \E c \in Ch((1..P) \ {a, b}) :
-     \E k \in Ch1(0..(NS - 1)) : \E imm \in Ch1(Imms) : \E cc \in Ch1(Conds) :
+     \E k \in Ch1(0..(NS - 1)) : \E imm \in Ch1(Imms) : \E cc \in Ch1(Conds) : \E xa \in Ch(1..Q) : \E xb \in Ch((1..Q) \ {xa}) :
        LET args == IF Randomized THEN [j \in 1..8 |-> RandomElement(1..P)]
                    ELSE <<a, IF b = 0 THEN a ELSE b, IF c = 0 THEN a ELSE c, a, a, IF b = 0 THEN a ELSE b, IF c = 0 THEN a ELSE c, a>>
-       IN prog' = prog \o Mk(ops[oi], P, a, b, c, k, imm, cc, args)
+       IN prog' = prog \o Mk(ops[oi], P, a, b, c, k, imm, cc, args, xa, xb)
   /\ plan' = <<[Head(plan) EXCEPT ![2] = @ - 1]>> \o Tail(plan)
 GenJump == /\ plan # <<>> /\ Head(plan)[1] = "J"
            /\ \E cc \in Ch1(Conds) : \E a \in Ch(1..P) : \E b \in Ch(1..P) :
@@ -120,20 +131,20 @@ GenTable == /\ plan # <<>> /\ Head(plan)[1] = "T"
             /\ \E a \in Ch(1..P) : prog' = Append(prog, <<"jtab", a, Head(plan)[2]>>)
             /\ plan' = Tail(plan)
 Gen == /\ phase = "gen" /\ (GenLiteral \/ GenBlockEnd \/ GenBlock \/ GenJump \/ GenTable)
-       /\ UNCHANGED <<phase, P, sk, hz, ms>>
+       /\ UNCHANGED <<phase, P, Q, sk, hz, ms>>
 
 Start == /\ phase = "gen" /\ plan = <<>>
          /\ phase' = "run"
-         /\ ms' = [j \in 1..Len(Inputs) |-> InitMachine(P + 3, Inputs[j])]
-         /\ UNCHANGED <<P, sk, hz, plan, prog>>
+         /\ ms' = [j \in 1..Len(Inputs) |-> InitMachineX(P + 3, Q, Inputs[j])]
+         /\ UNCHANGED <<P, Q, sk, hz, plan, prog>>
 
 (* THE INTERPRETER: all machines (one per input) advance by one instruction *)
 Interp == /\ phase = "run" /\ ~(\A j \in 1..Len(ms) : ms[j].halted)
           /\ ms' = [j \in 1..Len(ms) |-> StepM(prog, ms[j])]
-          /\ UNCHANGED <<phase, P, sk, hz, plan, prog>>
+          /\ UNCHANGED <<phase, P, Q, sk, hz, plan, prog>>
 Finish == /\ phase = "run" /\ \A j \in 1..Len(ms) : ms[j].halted
           /\ phase' = "done"
-          /\ UNCHANGED <<P, sk, hz, plan, prog, ms>>
+          /\ UNCHANGED <<P, Q, sk, hz, plan, prog, ms>>
 
 Next == Gen \/ Start \/ Interp \/ Finish
 Spec == Init /\ [][Next]_vars
@@ -141,5 +152,5 @@ Spec == Init /\ [][Next]_vars
 (* the generator only produces well-defined programs (checked, not assumed) *)
 WellDefined == phase \in {"run", "done"} => \A j \in 1..Len(ms) : ~ms[j].bad
 Export == phase = "done" =>
-            PrintT(<<"PROG", <<sk, P, hz>>, prog, Inputs, [j \in 1..Len(ms) |-> Result(ms[j])]>>)
+            PrintT(<<"PROG", <<sk, P, hz, Q>>, prog, Inputs, [j \in 1..Len(ms) |-> Result(ms[j])]>>)
 =============================================================================
